@@ -85,10 +85,10 @@ func c11Alphabet(level int) []c11Op {
 		ops = append(ops, c11Op{M: "withdrawReward", Caller: "D-twice", V: "V1"}, c11Op{M: "withdrawReward", Caller: "D-twice", V: "V2"})
 	}
 	// signed variants
-	sigs := []string{"valid", "wrong-signer", "other-delegator", "chain+1", "tampered"}
+	sigs := []string{"valid", "wrong-signer", "other-delegator", "other-delegator-caller-signs", "chain+1", "tampered"}
 	eoas := []string{"A", "B"}
 	if level == 0 {
-		sigs = []string{"valid", "other-delegator"}
+		sigs = []string{"valid", "other-delegator", "other-delegator-caller-signs"}
 		eoas = []string{"A"}
 	}
 	for _, c := range eoas {
